@@ -7,7 +7,11 @@ The verified text of a ``.pyx`` file is obtained on every run from the file in
    bare C declarations ``cdef <type> <name>`` (no value),
  * the prefix ``cdef <type>`` (with an optional memoryview suffix ``[:]``,
    ``[:, :]``) of a declaration that has an initialiser:
-   ``cdef uint32 n = np.uint32(x)`` becomes ``n = np.uint32(x)``.
+   ``cdef uint32 n = np.uint32(x)`` becomes ``n = np.uint32(x)``,
+ * in a C function definition ``cdef [inline] <type> f(<type> a, <type> *b) nogil:``
+   the letter ``c`` of ``cdef``, ``inline``, the return type, the parameter types
+   (with pointer stars) and ``nogil``: it becomes ``def f(a, b):`` (a pointer
+   parameter is then an array, ``p[i]`` an element access).
 
 ``convert`` checks that every output line is the input line, or the input line
 with such a prefix removed, and that the result parses as Python; it returns the
@@ -28,8 +32,13 @@ from __future__ import annotations
 import ast
 import re
 
-_DECL_INIT = re.compile(r"^(\s*)cdef\s+[A-Za-z_][A-Za-z_0-9\.]*\s*(\[[:,\s]*\])?\s+([A-Za-z_][A-Za-z_0-9]*\s*=.*)$")
-_DECL_BARE = re.compile(r"^\s*cdef\s+[A-Za-z_][A-Za-z_0-9\.]*\s*(\[[:,\s]*\])?\s+[A-Za-z_][A-Za-z_0-9]*\s*$")
+_TYPE = r"(?:unsigned\s+char|unsigned\s+int|[A-Za-z_][A-Za-z_0-9\.]*)"
+_DECL_INIT = re.compile(r"^(\s*)cdef\s+" + _TYPE + r"\s*(\[[:,\s]*\])?\s+([A-Za-z_][A-Za-z_0-9]*\s*=.*)$")
+_DECL_BARE = re.compile(r"^\s*cdef\s+" + _TYPE + r"\s*(\[[:,\s]*\])?\s+[A-Za-z_][A-Za-z_0-9]*(\s*,\s*[A-Za-z_][A-Za-z_0-9]*)*\s*$")
+#: C function definition: `cdef [inline] <type> name(<typed params>) [nogil]:` (may span lines)
+_CFUNC_HEAD = re.compile(r"^(\s*)c(def)\s+(?:inline\s+)?" + _TYPE + r"\s+([A-Za-z_][A-Za-z_0-9]*\s*\(.*)$")
+_PARAM_TYPE = re.compile(r"(?<![A-Za-z_0-9])(?:Py_ssize_t|double|float|int|long|unsigned\s+char|unsigned\s+int)"
+                         r"(?![A-Za-z_0-9])\s*\*?\s*(?=[A-Za-z_])")
 _WHOLE = [re.compile(r"^\s*cimport\s+.*$"), re.compile(r"^\s*from\s+\S+\s+cimport\s+.*$"),
           re.compile(r"^\s*ctypedef\s+.*$"), re.compile(r"^\s*cnp\.import_array\(\)\s*$")]
 
@@ -41,7 +50,23 @@ def _is_subsequence(small, big):
 
 def convert(text):
     out, dropped = [], []
+    in_sig = False
     for no, line in enumerate(text.split("\n"), 1):
+        m = _CFUNC_HEAD.match(line) if not in_sig else None
+        if m or in_sig:
+            # C function signature: 'c' of cdef, 'inline', the return type, the parameter
+            # types (incl. pointer stars) and 'nogil' are deleted
+            if m:
+                new = m.group(1) + "def " + m.group(3)
+            else:
+                new = line
+            new = _PARAM_TYPE.sub("", new)
+            new = re.sub(r"\)\s*nogil\s*:", "):", new)
+            in_sig = not new.rstrip().endswith(":")
+            if new != line:
+                dropped.append(f"line {no}: C function signature: '{line.strip()}' -> '{new.strip()}'")
+            out.append(new)
+            continue
         if any(r.match(line) for r in _WHOLE) or _DECL_BARE.match(line):
             dropped.append(f"line {no} deleted: {line.strip()}")
             out.append("")
@@ -56,7 +81,7 @@ def convert(text):
     res = "\n".join(out)
     # deletion-only check, line by line
     for a, b in zip(res.split("\n"), text.split("\n")):
-        if a != b and not (a == "" or (_is_subsequence(a, b) and b.startswith(a[:len(a) - len(a.lstrip())]))):
+        if a != b and not (a == "" or _is_subsequence(a, b)):
             raise ValueError(f"cy2py: not a pure deletion: {b!r} -> {a!r}")
     if "cdef" in re.sub(r"#.*", "", res) or "cimport" in re.sub(r"#.*", "", res):
         raise ValueError("cy2py: Cython constructs outside the accepted subset remain")
